@@ -50,6 +50,15 @@ def run(ctx):
         r74(ctx, prog)
     r73b(ctx, prog)
     r75(ctx, prog)
+    # R7.7 which neighbours fuse is decided token by token: a word consumes itself, plus the sign and the word *directly* after it exactly
+    # when the three were joined into one number - never something reached across a gap (the C06 R6.3/R6.5 word rules of the second
+    # stage, reported here: `1e- 3` must stay three tokens like `1e - 3`)
+    from rules import toksem
+    from rules.c05 import _Renamed
+    try:
+        toksem.check_words(_Renamed(ctx, 'R7.7'), prog)
+    except (ValueError, tables.TableError) as e:
+        ctx.unrecognised('R7.7', 'partial_tokens_to_tokens', 'shape', str(e))
 
 
 def r75(ctx, prog):
